@@ -198,7 +198,7 @@ func (t *listTarget) Final() string {
 // parseHeader: tokens after "@ C11": list <ninit> T … T …
 func parseHeader(line string) (ninit int, progs [][]string, ok bool) {
 	t := strings.Fields(line)
-	if len(t) < 4 || t[0] != "@" || t[1] != "C11" || t[2] != "list" {
+	if len(t) < 4 || t[0] != "@" || t[1] != "C11" || (t[2] != "list" && t[2] != "list1") {
 		return 0, nil, false
 	}
 	n, err := strconv.Atoi(t[3])
@@ -225,6 +225,21 @@ func parseHeader(line string) (ninit int, progs [][]string, ok bool) {
 	return n, progs, true
 }
 
-func factory(ninit int, progs [][]string) drive.Factory {
-	return func() *drive.Exec { return drive.NewExec(newListTarget(ninit), progs) }
+// headerProcs: `@ C11 list1 …` runs the case with the runtime shim reporting
+// GOMAXPROCS == 1 (the model does not depend on it; code that does is driven through its
+// single-P branch with every interleaving still possible), `list` with GOMAXPROCS == 8.
+func headerProcs(line string) int {
+	t := strings.Fields(line)
+	if len(t) > 2 && t[2] == "list1" {
+		return 1
+	}
+	return 8
+}
+
+func factory(ninit int, progs [][]string, procs int) drive.Factory {
+	return func() *drive.Exec {
+		e := drive.NewExec(newListTarget(ninit), progs)
+		e.S.Procs = procs
+		return e
+	}
 }
